@@ -352,8 +352,10 @@ def relevant(ob: Dict[str, Any], pid: str) -> bool:
 # native witness search: where the counter-model of a failed obligation is an abstract (framework) object that
 # cannot be replayed as is, a per-property script looks for a concrete input showing a violation on the real code.
 # Not part of the proof; only decides whether the VIOLATION line carries a reproduced input.
-WITNESS_SEARCH = {'C18': ('replayers/c18.py', ('werkzeug', 'flask', 'aiohttp')),
-                  'C16': ('replayers/c16.py', ('openapi', 'openrpc'))}
+_SRV = ('replayers/c01.py', ((':Dispatcher.', 'Dispatcher'), (':AsyncDispatcher.', 'AsyncDispatcher')))
+WITNESS_SEARCH = {'C18': ('replayers/c18.py', (('.werkzeug:', 'werkzeug'), ('.flask:', 'flask'), ('.aiohttp:', 'aiohttp'))),
+                  'C16': ('replayers/c16.py', (('.openapi:', 'openapi'), ('.openrpc:', 'openrpc'))),
+                  'C01': _SRV, 'C02': _SRV, 'C03': _SRV, 'C11': _SRV, 'C12': _SRV}
 
 
 def witness_search(pid, violations):
@@ -366,7 +368,7 @@ def witness_search(pid, violations):
         rep = f.setdefault('replay', {})
         if rep.get('status') == 'violation-reproduced':
             continue
-        key = next((k for k in keys if f'.{k}:' in f['function']), None)
+        key = next((arg for sub, arg in keys if sub in f['function']), None)
         if key is None:
             continue
         if key not in cache:
